@@ -43,15 +43,25 @@ class ClientSubRun:
         self.prober = Actor(self.w, "prober")
         self.prober.open()
         self.prober.handshake("v2v1", req_id=70, name=b"prober")
+        self.twin = None
+        multi = ch.flag("cfg.twin", 1, 3)
         self.client = pyrtma.Client(module_id=11, timecode=timecode)
         self.w.register_client_logger(self.client)
-        self.client.connect(f"127.0.0.1:{self.w.PORT}")
+        self.client.connect(f"127.0.0.1:{self.w.PORT}", allow_multiple=multi)
+        if multi:
+            # a second instance of the same module (same id), with its own subscriptions
+            self.twin = pyrtma.Client(module_id=11, timecode=timecode)
+            self.w.register_client_logger(self.twin)
+            self.twin.connect(f"127.0.0.1:{self.w.PORT}", allow_multiple=True)
+            self.res.probes["twin_instance"] += 1
         self.w.quiesce()
         self.drain()
+        if self.twin is not None:
+            self.drain(self.twin)
 
-    def drain(self):
+    def drain(self, who=None):
         """parse and empty what sits on the client's socket; returns delivered probe types"""
-        s = self.client._sock
+        s = (who or self.client)._sock
         s.arrive()
         frames, left = C.split_frames(self.w.timecode, bytes(s.rx_arrived))
         del s.rx_arrived[:]
@@ -64,6 +74,8 @@ class ClientSubRun:
         w = self.w
         w.quiesce()
         self.drain()
+        if self.twin is not None and self.twin.connected:
+            self.drain(self.twin)
         tags = {}
         for t in self.uni:
             raw = self.prober.frame(t, b"p")
@@ -77,6 +89,14 @@ class ClientSubRun:
                 if h.msg_type in delivered:
                     self.res.add("C02", "duplicate_delivery", f"type {h.msg_type} delivered twice to the client")
                 delivered.add(h.msg_type)
+        if self.twin is not None and self.twin.connected:
+            tgot = {h.msg_type for h in self.drain(self.twin) if h.send_time in tags}
+            tsub = self.twin.subscribed_types
+            twant = set(self.uni) if tsub == {ALL} else set(tsub)
+            if tgot != twant:
+                self.res.add("C02", "disagreement_twin",
+                             f"second instance of module 11 reports subscribed={self.fmt(tsub)} but the manager "
+                             f"delivers {sorted(tgot)} to it", sig="disagreement_twin")
         return delivered
 
     # ------------------------------------------------------------------ argument shapes
@@ -167,6 +187,15 @@ class ClientSubRun:
         kind = ch.weighted("op.kind", [(5, "subscribe"), (4, "unsubscribe"), (4, "pause"), (4, "resume"),
                                        (1, "unsub_all"), (1, "pause_all"), (1, "resume_all"),
                                        (4, "sub_ctx"), (4, "pause_ctx"), (1, "reconnect"), (1, "drop_reconnect")])
+        if self.twin is not None and self.twin.connected and ch.flag("op.twin", 1, 3):
+            tl = self.arg_list("twin")
+            tk = ch.choose("twin.kind", ["subscribe", "unsubscribe", "pause", "resume"])
+            try:
+                {"subscribe": self.twin.subscribe, "unsubscribe": self.twin.unsubscribe,
+                 "pause": self.twin.pause_subscription, "resume": self.twin.resume_subscription}[tk](tl)
+                self.t(f"twin {tk}({['ALL' if x == ALL else x for x in tl]})")
+            except InvalidSubscription:
+                pass
         s0, p0 = c.subscribed_types, c.paused_subscribed_types
         d0 = self.last_delivered if self.last_delivered is not None else self.probe()
         self.res.probes[f"op_{kind}"] += 1
@@ -239,7 +268,7 @@ class ClientSubRun:
                         pass
                 self.w.quiesce()
                 if not c.connected:
-                    c.connect(f"127.0.0.1:{self.w.PORT}")
+                    c.connect(f"127.0.0.1:{self.w.PORT}", allow_multiple=self.twin is not None)
                     self.w.quiesce()
                     self.res.probes["reconnect_after_loss"] += 1
                     self.check_agreement("reconnect after connection loss")
@@ -247,12 +276,16 @@ class ClientSubRun:
                 self.t("disconnect(); connect()")
                 c.disconnect()
                 self.w.quiesce()
-                c.connect(f"127.0.0.1:{self.w.PORT}")
+                c.connect(f"127.0.0.1:{self.w.PORT}", allow_multiple=self.twin is not None)
                 self.w.quiesce()
                 self.check_agreement("reconnect")
         except InvalidSubscription:
             self.t("  -> InvalidSubscription")
             self.res.probes["refused_ops"] += 1
+            if s0 != {ALL}:
+                res.add("C02", "spurious_refusal",
+                        f"{kind} was refused with InvalidSubscription although the client reports "
+                        f"subscribed={self.fmt(s0)} (not subscribed to all types)", sig="spurious_refusal")
             self.check_agreement(f"refused {kind}", expect_unchanged=(s0, p0, d0))
 
     # ------------------------------------------------------------------
@@ -272,6 +305,8 @@ class ClientSubRun:
         finally:
             if self.client is not None:
                 self.client._connected = False
+            if getattr(self, "twin", None) is not None:
+                self.twin._connected = False
             w = self.w
             res.stats.update({k: v for k, v in w.net.stats.items() if v})
             res.digest = w.digest()
